@@ -612,6 +612,9 @@ struct Case<'a> {
     panic_info: String,
     /// the root graph, for runs with a permuted plan (`Graph::verif_run_with_plan`)
     root: Option<&'a Graph>,
+    /// family S: operator outputs carry term hashes, so the answer of the `sym` request is taken from
+    /// the REAL run's outputs instead of the harness's symbolic evaluation
+    sym_real: bool,
 }
 
 #[derive(Clone)]
@@ -908,6 +911,28 @@ fn run_case(case: &Case, rng: &mut Rng, pools: &Pools, out: &mut Out) {
         out.note("a Begin event referred to a graph address that is not reachable from the root graph");
     }
 
+    // CapsWF is a hypothesis of the capture theorems: a violation is an assumption failure of the check
+    if fail.is_none() {
+        if let Some(v) = recs.iter().flat_map(|r| r.lines.iter()).flat_map(|l| l.capswf.iter()).next() {
+            fail = Some(format!("ASSUMPTION CapsWF (kind clause) violated in a nested run: {v}"));
+        }
+    }
+    let real_sym = |r: &RunRec, l: &Line| -> String {
+        match &r.outcome {
+            Outcome::Ok(vs) => format!(
+                "ok|{}",
+                hcommon::join(
+                    vs.iter().map(|v| {
+                        let f: Vec<f32> = v.bits.iter().map(|b| f32::from_bits(*b as u32)).collect();
+                        vec_hash(&f)
+                    }),
+                    ","
+                )
+            ),
+            _ => l.ans.split('|').next().unwrap_or("?").to_string(),
+        }
+    };
+
     // ---- emission
     let r0_ans0: Option<String> = r0.lines.first().map(|l| l.ans.clone());
     for (ci, (c, r)) in cfgs.iter().zip(&recs).enumerate() {
@@ -938,10 +963,20 @@ fn run_case(case: &Case, rng: &mut Rng, pools: &Pools, out: &mut Out) {
             let nontrivial = l.n_inplace > 0 || l.n_released > 0 || l.n_byval > 0;
             out.case(&l.req, &l.ans, pf, nontrivial);
             out.bucket(&format!("line_depth_{}", l.depth.min(3)));
-            if ci == 0 {
+            if ci == 0 || Some(ci) == perm_idx {
                 if let Some((sreq, sans)) = &l.sym {
-                    out.case(sreq, sans, None, false);
-                    out.bucket("sym_lines");
+                    if case.sym_real && li == 0 {
+                        // the answer comes from the REAL run's output values
+                        let real = real_sym(r, l);
+                        let pf2 = (real != *sans).then(|| {
+                            format!("real outputs carry term hashes {real} but the harness's symbolic naive evaluation gives {sans}")
+                        });
+                        out.case(sreq, &real, pf2.as_deref(), true);
+                        out.bucket(if Some(ci) == perm_idx { "sym_real_lines_perm" } else { "sym_real_lines" });
+                    } else {
+                        out.case(sreq, sans, None, false);
+                        out.bucket(if Some(ci) == perm_idx { "sym_lines_perm" } else { "sym_lines" });
+                    }
                 }
             }
             for v in &l.capswf {
@@ -1143,6 +1178,21 @@ struct MockSpec {
     ip: Vec<u32>,
     comm: bool,
     fail: Fail,
+    /// `Some(node id)`: symbolic mock (family S) — its outputs carry the hash of the term that defines
+    /// them (same hash as the Lean driver's `sym` request), so the REAL run's values can be compared with
+    /// the Lean executor model's answer.
+    sym: Option<u32>,
+}
+
+/// A 61-bit hash as four 16-bit limbs (exact in f32), padded with zeros to `4 + (h >> 7) % 4` elements.
+fn hash_vec(h: u64) -> Vec<f32> {
+    let mut v: Vec<f32> = (0..4).map(|i| ((h >> (16 * i)) & 0xffff) as f32).collect();
+    v.resize(4 + ((h >> 7) % 4) as usize, 0.0);
+    v
+}
+
+fn vec_hash(v: &[f32]) -> u64 {
+    (0..4).map(|i| (v.get(i).copied().unwrap_or(0.0) as u64 & 0xffff) << (16 * i)).sum()
 }
 
 /// The mock semantics: a pure function of the (optional) inputs seen as f32 vectors.
@@ -1163,6 +1213,14 @@ fn mock_eval(spec: &MockSpec, ins: &[Option<Vec<f32>>]) -> Result<Vec<Vec<f32>>,
     }
     let len = if present.is_empty() { 2 } else { present.iter().map(|(_, v)| v.len()).max().unwrap_or(0) };
     let n = if spec.fail == Fail::Short { spec.n_out.saturating_sub(1) } else { spec.n_out };
+    if let Some(op) = spec.sym {
+        // h = fold mix over the inputs (3 for an omitted input), output k = mix(mix(h, 5), k)
+        let mut h = mix(4, op as u64);
+        for i in ins {
+            h = mix(h, i.as_ref().map(|v| vec_hash(v)).unwrap_or(3));
+        }
+        return Ok((0..n).map(|k| hash_vec(mix(mix(h, 5), k as u64))).collect());
+    }
     let mut outs = vec![];
     for k in 0..n {
         let mut o = Vec::with_capacity(len);
@@ -1389,7 +1447,7 @@ impl<'r> BGen<'r> {
             2 | 3 => Fail::LenMismatch,
             _ => Fail::No,
         };
-        MockSpec { n_out, ip, comm, fail }
+        MockSpec { n_out, ip, comm, fail, sym: None }
     }
 
     /// Generate a graph. `outer`: names (and kinds) visible from enclosing graphs.
@@ -1779,13 +1837,85 @@ fn family_b_case(rng: &mut Rng, pools: &Pools, out: &mut Out) {
     gd_case(gd, "B", None, vec![], rng, pools, out)
 }
 
+fn fvalue_vec(v: Vec<f32>) -> Value {
+    let n = v.len();
+    fvalue(&[n], v)
+}
+
+/// Family S: graphs of symbolic mock operators only (see `MockSpec::sym`); sources, constants and every
+/// operator output carry the hash of their defining term, so the REAL outputs are compared with the
+/// Lean executor model's `sym` answer (normal and permuted plan).
+fn family_s_case(rng: &mut Rng, pools: &Pools, out: &mut Out) {
+    let mut nodes: Vec<NK> = vec![];
+    let mut vals: Vec<u32> = vec![];
+    for _ in 0..1 + rng.usize_below(3) {
+        vals.push(nodes.len() as u32);
+        nodes.push(NK::Val);
+    }
+    for _ in 0..rng.usize_below(3) {
+        let id = nodes.len() as u32;
+        vals.push(id);
+        nodes.push(NK::ConstF(hash_vec(mix(2, id as u64))));
+    }
+    let n_ops = 1 + rng.usize_below(9);
+    let mut produced: Vec<u32> = vec![];
+    for _ in 0..n_ops {
+        let n_in = rng.usize_below(4);
+        let ins: Vec<Option<u32>> = (0..n_in)
+            .map(|_| if rng.chance(1, 12) { None } else { Some(*rng.pick(&vals)) })
+            .collect();
+        let n_out = 1 + rng.usize_below(2);
+        let mut outs: Vec<Option<u32>> = vec![];
+        for _ in 0..n_out {
+            if rng.chance(1, 10) {
+                outs.push(None);
+            } else {
+                let id = nodes.len() as u32;
+                nodes.push(NK::Val);
+                outs.push(Some(id));
+            }
+        }
+        let ip: Vec<u32> = match rng.below(5) {
+            0 => vec![],
+            1 | 2 => vec![0],
+            3 => vec![1],
+            _ => vec![0, 1],
+        };
+        // real commutative operators take exactly one operand in place (`into_single`)
+        let comm = ip.len() == 1 && rng.chance(1, 3);
+        let fail = match rng.below(25) {
+            0 => Fail::Always,
+            1 => Fail::Short,
+            _ => Fail::No,
+        };
+        let op_id = nodes.len() as u32;
+        nodes.push(NK::Op { k: OpK::Mock(MockSpec { n_out, ip, comm, fail, sym: Some(op_id) }), ins, outs: outs.clone() });
+        for o in outs.into_iter().flatten() {
+            vals.push(o);
+            produced.push(o);
+        }
+    }
+    let mut outputs: Vec<u32> = produced.last().copied().into_iter().collect();
+    if outputs.is_empty() {
+        outputs.push(vals[0]);
+    }
+    let gd = GD {
+        names: (0..nodes.len()).map(|i| format!("s{i}")).collect(),
+        n_ops_total: n_ops,
+        nodes,
+        outputs,
+        cond_inputs: vec![],
+    };
+    gd_case(gd, "S", None, vec![], rng, pools, out)
+}
+
 /// Family D: an id with about 255 uses — the `u8` reference counter saturates (sticky 255: never taken
 /// in place, never released) or just does not (254 uses).  `0:x  1:y  2:z  3:w`,
 /// `4: y = M(x, x, …, x)` (`n` copies), `5: z = U(x)` (can run in place), `6: w = M2(x, z)`.
 fn family_d_case(rng: &mut Rng, pools: &Pools, out: &mut Out) {
     let n = *rng.pick(&[250usize, 252, 253, 254, 255, 256, 257, 300]);
     let with_third = rng.chance(1, 2);
-    let mock = |ip: Vec<u32>, comm: bool| OpK::Mock(MockSpec { n_out: 1, ip, comm, fail: Fail::No });
+    let mock = |ip: Vec<u32>, comm: bool| OpK::Mock(MockSpec { n_out: 1, ip, comm, fail: Fail::No, sym: None });
     let mut nodes = vec![NK::Val, NK::Val, NK::Val, NK::Val];
     nodes.push(NK::Op { k: mock(if rng.chance(1, 2) { vec![0] } else { vec![] }, false), ins: vec![Some(0); n], outs: vec![Some(1)] });
     nodes.push(NK::Op { k: mock(vec![0], false), ins: vec![Some(0)], outs: vec![Some(2)] });
@@ -1811,6 +1941,7 @@ fn family_d_case(rng: &mut Rng, pools: &Pools, out: &mut Out) {
 }
 
 fn gd_case(gd: GD, fam: &'static str, force_outs: Option<Vec<u32>>, extra_tags: Vec<String>, rng: &mut Rng, pools: &Pools, out: &mut Out) {
+    let sym = fam == "S";
     let g = build_graph(&gd);
     let mut infos = HashMap::new();
     collect_infos(&g, &mut infos);
@@ -1819,6 +1950,10 @@ fn gd_case(gd: GD, fam: &'static str, force_outs: Option<Vec<u32>>, extra_tags: 
         let gdr = &gd;
         let mut mk = |rng: &mut Rng, id: NodeId, _name: &str, _is_const: bool| -> Option<Value> {
             let i = id.as_u32();
+            if sym {
+                // every supplied value carries the hash of `input i`
+                return Some(fvalue_vec(hash_vec(mix(1, i as u64))));
+            }
             match gdr.nodes.get(i as usize) {
                 Some(NK::ConstI(_, _)) => Some(Value::from(Tensor::from(rng.below(2) as i32))),
                 Some(NK::ConstF(d)) => {
@@ -1867,6 +2002,7 @@ fn gd_case(gd: GD, fam: &'static str, force_outs: Option<Vec<u32>>, extra_tags: 
             tags,
             root_ops: gd.nodes.iter().filter(|n| matches!(n, NK::Op { .. })).count(),
             root: Some(gref),
+            sym_real: sym,
         };
         run_case(&case, rng, pools, out);
         infos = case.infos;
@@ -2545,6 +2681,7 @@ fn family_a_case(rng: &mut Rng, pools: &Pools, out: &mut Out) {
             root_ops,
             panic_info,
             root: Some(g),
+            sym_real: false,
         };
         run_case(&case, rng, pools, out);
         infos = case.infos;
@@ -2854,6 +2991,7 @@ fn family_c_case(rng: &mut Rng, pools: &Pools, out: &mut Out) {
         root_ops,
         panic_info: format!("model: {desc}"),
         root: Some(gr),
+        sym_real: false,
     };
     run_case(&case, rng, pools, out);
 }
@@ -2941,6 +3079,19 @@ fn main() {
         if let Err(m) = r {
             out.bucket("harness_panic");
             out.note(&format!("case {ci} ({}) panicked in the harness: {m}", if is_a { "A" } else { "B" }));
+        }
+    }
+    let n_s = if args.thorough { 8_000 } else { 800 };
+    for ci in 0..n_s {
+        PROGRESS.store(ci as u64 + 1, Ordering::SeqCst);
+        let mut case_rng = Rng::new(rng.next_u64());
+        let r = hcommon::catch(|| family_s_case(&mut case_rng, &pools, &mut out));
+        exec_trace::set_never_in_place(false);
+        let _ = exec_trace::take_trace();
+        std::env::remove_var("RTEN_USE_POOL");
+        if let Err(m) = r {
+            out.bucket("harness_panic");
+            out.note(&format!("case {ci} (S) panicked in the harness: {m}"));
         }
     }
     out.note("R2 (thread count), R6 (other prepack), random extra masks and flipped never-in-place runs are emitted only when their depth-0 answer differs from R0; all runs are compared by the oracle");
